@@ -23,6 +23,11 @@ def check(prop, tier, seed):
         if r['alpn'] == 'h2' and r['client_auth'] != 'none' and r['roots'] == 'right' and r['name'] == 'match' and r['tls_cfg']:
             for ca in ('empty', 'key_only'):
                 extra.append(dict(r, client_ca=ca, **{'class': 'unusable_client_ca'}))
+    # an origin override (set before or after the TLS configuration, naming a host the certificate does or does not cover) changes nothing
+    for r in rows:
+        if r['alpn'] == 'h2' and r['client_auth'] == 'none' and r['identity'] == 'none' and not r['assume_http2'] and r['tls_cfg']:
+            for o in ('good_before', 'good_after', 'bad_before', 'bad_after'):
+                extra.append(dict(r, origin=o, **{'class': 'origin_override'}))
     rows = rows + extra
     ev, path = simple.run_lab('tls', rows, tag, 'table', timeout=3000)
     simple.validate(prop, 'Trace_Tls', verdict, ev, path, 'table', cov, clause_filter=lambda c: c.startswith('C15.') or c in ('NoPanic', 'NoHang'))
